@@ -793,6 +793,15 @@ fn get_diff_style_sections<'a>(
     (diff_sections, line_alignment)
 }
 
+/// Verification hook: the line alignment chosen for a subhunk (see src/verif_hooks/linenum.rs).
+#[cfg(dandavison_delta_verif)]
+pub fn verif_linenum_line_alignment(
+    lines: &MinusPlus<&Vec<(String, State)>>,
+    config: &config::Config,
+) -> Vec<(Option<usize>, Option<usize>)> {
+    get_diff_style_sections(lines, config).1
+}
+
 fn painted_prefix(state: State, config: &config::Config) -> Option<ANSIString> {
     use DiffType::*;
     use State::*;
